@@ -1,5 +1,55 @@
 import Driver.Common
-open Driver
+import GIV.Model.Build
+import GIV.Model.ReadImports
+open GIV Driver
 
-/-- stub: replaced by the group's model driver. -/
-def main : IO Unit := run (fun _ => "bad-op")
+/-- `unicode.IsLetter(r) || unicode.IsDigit(r)` for r ≥ 0x80 — exact on U+0080–U+00FF,
+U+0660–U+0669 and U+4E00–U+9FFF (checked against Go's tables by the harness on every run),
+which are the ranges the correspondence generator draws non-ASCII runes from; false elsewhere. -/
+def driverU (r : Nat) : Bool :=
+  r = 0xAA || r = 0xB5 || r = 0xBA || (0xC0 ≤ r && r ≤ 0xFF && r ≠ 0xD7 && r ≠ 0xF7) ||
+  (0x660 ≤ r && r ≤ 0x669) || (0x4E00 ≤ r && r ≤ 0x9FFF)
+
+/-- tag set: `_` = empty, otherwise hex strings joined by `,`. -/
+def parseTags (s : String) : Option (List Bytes) :=
+  if s == "_" then some [] else (s.splitOn ",").mapM fromHex
+
+def tagsOf (l : List Bytes) : Build.Tags := fun n => l.contains n
+
+def showB (b : Bool) : String := if b then "true" else "false"
+
+def showErr : Option ReadImports.Err → String
+  | none => "none" | some .syntax => "syntax" | some .nul => "nul"
+
+def showOutcome : ReadImports.Outcome → String
+  | .panic => "panic"
+  | .stuck => "stuck"
+  | .ok imps buf err =>
+    "I=" ++ (if imps.isEmpty then "_" else ",".intercalate (imps.map toHex)) ++ " B=" ++ toHex buf ++ " E=" ++ showErr err
+
+def step (line : String) : String :=
+  match line.splitOn " " with
+  | ["match", n, t] =>
+    match fromHex n, parseTags t with
+    | some n, some t => showB (Build.matchFile driverU n (tagsOf t))
+    | _, _ => "bad-op"
+  | ["should", c, t] =>
+    match fromHex c, parseTags t with
+    | some c, some t => showB (Build.shouldBuild driverU c (tagsOf t))
+    | _, _ => "bad-op"
+  | ["mtags", n, t] =>
+    match fromHex n, parseTags t with
+    | some n, some t => showB (Build.matchTags driverU n (tagsOf t))
+    | _, _ => "bad-op"
+  | ["uni", lo, hi] =>
+    -- the code points in [lo, hi) that driverU accepts, as a decimal list (table self-check)
+    match lo.toNat?, hi.toNat? with
+    | some lo, some hi => ",".intercalate (((List.range (hi - lo)).map (· + lo)).filter driverU |>.map toString)
+    | _, _ => "bad-op"
+  | ["read", d, r] =>
+    match fromHex d with
+    | some d => showOutcome (ReadImports.readImports d (r == "1"))
+    | none => "bad-op"
+  | _ => "bad-op"
+
+def main : IO Unit := run step
